@@ -344,6 +344,25 @@ def high_order_body(ctx, case):
             break
 
 
+def thread_cases(tier):
+    return [{"N": 128, "what": "zernike_nm"}, {"N": 96, "what": "zernikeArray"}, {"N": 128, "what": "phaseFromZernikes"}]
+
+
+def thread_body(ctx, case):
+    """Modes generated at the same time by threads of one process (a thread pool over modes, the same grid size) are the
+    modes generated one after the other."""
+    z, _ = Z()
+    N = case["N"]
+    ctx.case(case, nontrivial=True, classes=[case["what"]])
+    if case["what"] == "zernike_nm":
+        thunks = [(lambda n=n, m=m: z.zernike_nm(n, m, N, 0.1 * n)) for n, m in ((3, 1), (3, -1), (4, 2), (5, -3), (6, 0), (7, 5), (8, -2), (9, 9))]
+    elif case["what"] == "zernikeArray":
+        thunks = [(lambda k=k: z.zernikeArray([2 + k, 5 + k, 9 + k], N, norm=("noll", "rms", "p2v")[k % 3], rot=0.2 * k)) for k in range(8)]
+    else:
+        thunks = [(lambda k=k: z.phaseFromZernikes([0.5 * k, -1.0, 0.25, k, 2.0, -0.5 * k][:3 + k % 4], N, norm="noll", rot=0.1 * k)) for k in range(8)]
+    ctx.thread_agreement(thunks, case["what"])
+
+
 def extreme_cases(tier):
     return [{"n": n, "m": m, "N": N} for n, m, N in ((400, 0, 64), (790, 0, 64), (800, 0, 256), (1000, 2, 64), (1001, -1, 33), (1500, 0, 16))]
 
@@ -402,6 +421,7 @@ def very_high_body(ctx, case):
 LAWS = [
     plain_law("many_modes_large_grid", big_phase_cases, big_phase_body, shards={"quick": 3, "thorough": 3}),
     plain_law("high_orders", high_order_cases, high_order_body, shards={"quick": 4, "thorough": 8}),
+    plain_law("threads", thread_cases, thread_body, shards={"quick": 3, "thorough": 3}),
     plain_law("extreme_orders_support", extreme_cases, extreme_body, shards={"quick": 2, "thorough": 2}),
     plain_law("very_high_orders", very_high_cases, very_high_body, shards={"quick": 4, "thorough": 8}),
     given_law("modes_xl", mode_cases(320, 20), mode_body, {"quick": 0, "thorough": 40}, shards={"quick": 1, "thorough": 16}),
